@@ -23,7 +23,7 @@ THEOREMS = ["Yaw.C09.init_inv", "Yaw.C09.next_inv", "Yaw.C09.progress", "Yaw.C09
             "Yaw.C09.sequential_agrees", "Yaw.C09.path_rule", "Yaw.C09.flags", "Yaw.C09.glue_pinned"]
 RULE = ("every fault kind (NaN / inf in each column, unequal column lengths (one column shorter / longer than the others), missing column, patch index -1 / 32768 / "
         "65536+k, centre without object, no patch method, existing cache without overwrite, missing parent directory, "
-        "path is a file, overwrite of a non-catalog directory, reader exception, worker exception) x chunk position "
+        "path is a file, overwrite of a non-catalog directory, reader exception, worker exception, a refused location together with an input fault) x chunk position "
         "(first / middle / last) x worker count (1, 2, 4), plus fault-free controls, each executed in its own "
         "subprocess with a 60 s bound (a timeout is the observable 'hang'); checked: raises iff a fault is present, "
         "never a catalog of other data, pre-existing directory byte-identical unless a catalog cache is overwritten, "
@@ -153,6 +153,17 @@ def run(prop, tier, seed, replay):
             "raise", pre="dir-patchdir")
         add("exists-overwrite-file", dict(common, columns=base_cols(), centres=centres, overwrite=True), "raise", pre="file")
         add("missing-parent", dict(common, columns=base_cols(), centres=centres), "raise", pre="noparent")
+        # TWO faults at once: a location that is refused AND an input that fails in some chunk — whichever is noticed first,
+        # the pre-existing cache / directory stays as it was (clean-up after the input fault must not touch what the
+        # writer was never allowed to own)
+        for pname, idx in positions.items():
+            cols = base_cols()
+            cols["ra"][idx] = float("nan")
+            add("exists-no-overwrite+nonfinite-ra", dict(common, columns=cols, centres=centres, overwrite=False), "raise", pname,
+                pre="catalog")
+            add("overwrite-other-dir+reader-fault", dict(common, columns=base_cols(), centres=centres, overwrite=True,
+                                                        reader_fault_at={"first": 0, "middle": 2, "last": 4}[pname]),
+                "raise", pname, pre="dir")
 
     # prepare pre-existing states, run all specs in parallel subprocesses
     jobs = []
